@@ -377,6 +377,7 @@ func init() {
 	initRegexExternals()
 	initReplacerExternals()
 	initVerifAPI()
+	initErrorsExternals()
 }
 
 // ---------------------------------------------------------------------
